@@ -84,6 +84,7 @@ struct Ghost {
   const void *hi = nullptr;
   bool prep_conflict[kMaxT] = {};
   bool prep_wrote[kMaxT] = {};
+  int prep_writes[kMaxT] = {};   // value-changing writes to the lock object by the running PrepareRead call
 };
 
 struct SlotModel {
@@ -149,6 +150,7 @@ prep_cb(int tag)
     if (g.mode(t) != 0) g.prep_conflict[me] = true;
   }
   g.prep_wrote[me] = true;
+  g.prep_writes[me]++;
 }
 
 template <class L>
@@ -927,6 +929,7 @@ struct Interp {
           if (x_active_elsewhere(l)) X->out.prep_seen_x = true;
           g.prep_conflict[me] = false;
           g.prep_wrote[me] = false;
+          g.prep_writes[me] = 0;
           vsched::watch_set(1, g.lo, g.hi, l, prep_cb);
           auto gd = lk[l].PrepareRead();
           vsched::watch_clear(1);
@@ -946,6 +949,9 @@ struct Interp {
             m.lock = l;
           } else {
             const auto v = gd.GetVersion();
+            if (g.prep_writes[me] % 2 == 1) {
+              report("PREP-LEAK", std::string("PrepareRead on lock ") + std::to_string(l) + " returned a non-owning guard although the call modified the lock object an odd number of times: a shared grant was taken and nobody owns it");
+            }
             if (x_active_elsewhere(l)) report("PREP-X", std::string("PrepareRead on lock ") + std::to_string(l) + " returned a version while an exclusive holder is active");
             if (g.exact && v != g.gver) report("PREP-VER", std::string("PrepareRead on lock ") + std::to_string(l) + " carries version " + std::to_string(v) + " but the lock's version is " + std::to_string(g.gver));
             end_grant(m, kC, "move", [&] { ts->c[j] = std::move(gd); });
